@@ -269,16 +269,16 @@ def oracle_eof_order(ctx, sc, prop, where):
             if sock is None:
                 continue
             other = f.app if name == 'dst' else f.dst
-            # a shutdown towards an endpoint that itself closed both ways early is an abort, not an EOF
-            if env.saw_shut and other.eof_in and not env.eof_in:
+            # (no fault was injected on this flow) the tunnel shuts an endpoint's socket only to pass on the
+            # other endpoint's end-of-stream, and only after every byte written before that close
+            if env.saw_shut and other.eof_in:
                 if env.delivered != w:
                     report(ctx, sc, '%s:eof:shutdown-before-all-data' % prop, i, where,
                            '%s sees EOF after %d bytes' % (name, len(w)), 'after %d bytes' % len(env.delivered))
                     return False
-            if env.saw_shut and not other.eof_in and not env.eof_in:
+            if env.saw_shut and not other.eof_in:
                 report(ctx, sc, '%s:eof:shutdown-without-writer-close' % prop, i, where,
-                       'no EOF at %s while the other endpoint still sends and nobody closed' % name,
-                       'shutdown seen')
+                       'no EOF at %s while the other endpoint has not closed' % name, 'shutdown seen')
                 return False
             # nothing is sent after the shutdown
             evs = sock.log
